@@ -284,6 +284,8 @@ impl<'p> CoroutinePool<'p> {
             priority,
         );
         let task_id = task.id();
+        #[cfg(open_coroutine_verif)]
+        crate::common::verif::pause("pool_submit_between_check_and_push");
         self.submit_raw_task(task);
         Ok(task_id)
     }
